@@ -5,4 +5,7 @@ var Registry = map[string]func(Args) error{
 	"codec": Codec,
 	"frame": Frame,
 	"stream": Stream,
+	"mux": Mux,
+	"answer": Answer,
+	"find": Find,
 }
